@@ -378,6 +378,28 @@ def specRun : List Gate → List Op → List Out
   | _, [] => []
   | gates, op :: ops => let (gates', out) := specStep gates op; out :: specRun gates' ops
 
+/-! #### `random_one_qubit_gate` / `random_two_qubit_gate` (`clifford.py:140-147`): a raw draw selects an ordinary method call -/
+
+/-- `_single_gate_list = ['I','X','Y','Z','H','S']`; `none` is the no-op `I` -/
+def singleGateList : List (Option GateKey) := [none, some .X, some .Y, some .Z, some .H, some .S]
+
+/-- `_two_qubit_gate_list = ['CX','CY','CZ']` -/
+def twoGateList : List GateKey := [.CX, .CY, .CZ]
+
+/-- `random_one_qubit_gate(index)` with the raw draw `k = np_rng.integers(0, 6)`: the method call `getattr(self, list[k])(index)` -/
+def randomOneOp (k : Nat) (index : Int) : Op :=
+  match singleGateList.getD k none with
+  | none => .gateI
+  | some key => .append key [index]
+
+/-- `random_two_qubit_gate(index0, index1)` with the raw draw `k = np_rng.integers(0, 3)`.  The method asserts
+`index0 != index1` before drawing; the recorder called afterwards asserts the same (and `≥ 0`), so the outcome — `AssertionError`,
+nothing recorded — is that of the ordinary append; only the number of draws consumed differs (`randomTwoDraws`). -/
+def randomTwoOp (k : Nat) (index0 index1 : Int) : Op := .append (twoGateList.getD k .CX) [index0, index1]
+
+/-- draws consumed by `random_two_qubit_gate` -/
+def randomTwoDraws (index0 index1 : Int) : Nat := if index0 = index1 then 0 else 1
+
 /-! #### the variant without invalidation (the code before commit 7b24962), for comparison -/
 
 def stepStale (st : St) : Op → St × Out
@@ -407,6 +429,14 @@ def gateOpG (n : Nat) (g : Gate) : Numqi.Mat n GInt :=
       Numqi.ctrlEmbed (gateMat1G g.key.base) (fun i : Fin n => decide (i.val = q0)) (fun _ : Fin 1 => ⟨q1, hq.2⟩)
     else fun x y => if Bits.beq x y then 1 else 0
   | _ => fun x y => if Bits.beq x y then 1 else 0
+
+/-- `to_universal_circuit` (`clifford.py:180-190`) as the raw C03 gate list over ℤ[i] (flat row-major arrays; the `H` array is
+`√2·H`): one-qubit gates as `single_qubit_gate(G, q)`, two-qubit gates as `controlled_single_qubit_gate(base, q0, q1)` -/
+def exportRawG (g : Gate) : RawOp GInt :=
+  match g.idx with
+  | [q] => .unitary (tabulateMat (k := 1) (gateMat1G g.key)) [(q : Int)]
+  | [q0, q1] => .control (tabulateMat (k := 1) (gateMat1G g.key.base)) [(q0 : Int)] [(q1 : Int)]
+  | _ => .custom #[]
 
 /-- entry of C08's matrix of a binary Pauli, over ℤ[i] -/
 def pauliEntG (n : Nat) (p : PauliB) (b' b : Bits n) : GInt :=
